@@ -480,10 +480,10 @@ META = {
                 "configured breaks it: keeper_exit_on_empty_witness). Stored configuration: no event of a wrapper's life other than a reload "
                 "changes the configuration object the next reload is compared with, hence the loaded list loaded again is silent "
                 "after ANY history, not only right after the load (stored_immutable, reload_silent_after_history; on the real code "
-                "every reload comes from text through the real loader, with defaulted members left out). Two open findings in "
-                "visitor_manager.go (KNOWN_FINDINGS, repairs proposed in hooks/): a visitor name configured twice with different "
-                "contents is restarted by every later reload (vm_dup_restart_witness; repaired reload: vm_reload_idempotent_fixed for "
-                "every list), and an iteration of the keep-alive loop that runs after Close() starts a visitor nobody closes "
+                "every reload comes from text through the real loader, with defaulted members left out). Two findings in "
+                "visitor_manager.go of the pinned tree (repaired by 825e588 and ea20320; KNOWN_FINDINGS `fixed`): a visitor name configured twice with different "
+                "contents was restarted by every later reload (vm_dup_restart_witness; repaired reload: vm_reload_idempotent_fixed for "
+                "every list), and an iteration of the keep-alive loop that ran after Close() started a visitor nobody closed "
                 "(vm_close_pass_witness; repaired iteration: vm_closed_quiet_fixed). Re-login: after any history of reloads (connected, during an outage, between "
                 "attempts), session losses and logins a live control runs exactly the LAST loaded configuration and the new session "
                 "receives one NewProxy per configured name (reconnect_runs_last_loaded, relogin_registers_last_loaded; tied to where "
